@@ -116,6 +116,7 @@ func BuildDependency(argumentListContext *parser.ArgumentListContext) *core_doma
 
 func ConvertToJDep(result string) *core_domain.CodeDependency {
 	withQuote := strings.ReplaceAll(result, "'", "")
+	withQuote = strings.ReplaceAll(withQuote, "\"", "")
 	split := strings.Split(withQuote, ":")
 	return core_domain.NewCodeDependency(split[0], split[1])
 }
